@@ -32,8 +32,9 @@ def indexing(case, d):
     dt = np.dtype(case['dtype'])
     n = int(np.prod(case['shape']))
     ref = (np.arange(n) % 251).astype(dt).reshape(case['shape'])
-    a = darr.asarray(path, ref, accessmode='r+')
+    a = darr.asarray(path, ref, accessmode='r+', **(dict(chunklen=1) if 0 in case['shape'][1:] else {}))
     ref = ref.copy()
+    tail = tuple(case['shape'][1:])
     kept = []
     out = []
     ctx = None
@@ -47,6 +48,36 @@ def indexing(case, d):
             if ctx is not None:
                 ctx.__exit__(None, None, None); ctx = None
             out.append(dict(k=k, leak=fdcount(path))); continue
+        if k in ('grow', 'shrink', 'hide'):
+            o = dict(k=k)
+            try:
+                if k == 'grow':
+                    rows = ((np.arange(acc['n'] * int(np.prod(tail))) % 7) + 100).astype(dt).reshape((acc['n'],) + tail)
+                    a.append(rows)
+                    ref = np.concatenate([ref, rows]).astype(ref.dtype)
+                elif k == 'shrink':
+                    newlen = max(len(ref) - acc['n'], 0)
+                    if newlen < len(ref):
+                        darr.truncate_array(a, newlen)
+                        ref = ref[:newlen].copy()
+                else:
+                    # the data file is away for a moment: the access must fail and leave nothing behind
+                    dp = os.path.join(path, 'arrayvalues.bin')
+                    os.rename(dp, dp + '.away')
+                    try:
+                        a[0]
+                        o['hidden_access'] = 'ok'
+                    except Exception as e:
+                        o['hidden_access'] = type(e).__name__
+                    finally:
+                        os.rename(dp + '.away', dp)
+                o['res'] = ['ok']
+            except Exception as e:
+                o['res'] = ['exc', type(e).__name__, str(e)[:120]]
+            o['len'] = len(a); o['reflen'] = len(ref); o['shape'] = list(a.shape); o['refshape'] = list(ref.shape)
+            if ctx is None:
+                o['leak'] = fdcount(path)
+            out.append(o); continue
         ix = parse_index(acc['index'])
         o = dict(k=k)
         if k == 'get':
